@@ -325,7 +325,11 @@ func ClientRun(osenv *rsyncos.Env, opts *rsyncopts.Options, conn io.ReadWriter, 
 			}
 		}
 
-		stats, err := st.Do(crd, cwr, FileSystemRoot, paths, nil)
+		exclusionList, err := sender.ParseFilterRules(opts.FilterRules())
+		if err != nil {
+			return nil, err
+		}
+		stats, err := st.Do(crd, cwr, FileSystemRoot, paths, exclusionList)
 		if err != nil {
 			return nil, err
 		}
